@@ -165,6 +165,12 @@ pub fn run(a: &Args) -> i32 {
         }
         let (vtokens, vmods) = match (&rv.real, rv.modules) {
             (RealOutcome::Ok(t), Some(m)) => (t.clone(), m),
+            // the generator succeeded but the extractor cannot read a construct of the emitted code: a broken tie (the
+            // IR-based oracles cannot run), not a refusal of the input
+            (RealOutcome::Ok(_), None) => {
+                rep.disagree(json!({"what": "the emitted tokens could not be read into the IR", "file": "c09.rs"}));
+                continue;
+            }
             (other, _) => {
                 rep.fail("option-breaks-generation", json!({"schema": sdl, "query": qtext, "options": var.describe(), "outcome": format!("{:?}", other)}));
                 continue;
